@@ -610,6 +610,15 @@ class FuncInfo:
                 return e
             if isinstance(e, (ast.expr_context, ast.operator, ast.unaryop, ast.boolop, ast.cmpop)):
                 return e
+            if isinstance(e, ast.Call) and getattr(e, '_from_np_array', False) and isinstance(e.func, ast.Attribute) \
+                    and isinstance(e.func.value, ast.Name):
+                # `name.copy()` that the front end spelled from np.array(name): once the
+                # name is expanded to a non-name expression, spell it np.array(<expr>) again
+                inner = ex(e.func.value, d)
+                if not isinstance(inner, ast.Name):
+                    return ast.copy_location(ast.Call(
+                        func=ast.Attribute(value=ast.Name(id='np', ctx=ast.Load()), attr='array', ctx=ast.Load()),
+                        args=[inner], keywords=[]), e)
             new = type(e)()
             for f in e._fields:
                 val = getattr(e, f, None)
@@ -619,7 +628,7 @@ class FuncInfo:
                     setattr(new, f, ex(val, d))
                 else:
                     setattr(new, f, val)
-            for a in ('lineno', 'col_offset', 'end_lineno', 'end_col_offset'):
+            for a in ('lineno', 'col_offset', 'end_lineno', 'end_col_offset', '_from_np_array', '_canon_origin'):
                 if hasattr(e, a):
                     setattr(new, a, getattr(e, a))
             return new
